@@ -61,11 +61,6 @@ func stressOnce(c Case) (out vstat.Outcome, err error) {
 	h.phase = 1
 	h.mu.Unlock()
 
-	// known finding "TryRemove on a loading entry": excluded by construction by never letting
-	// a TryRemove overlap a Get of the same id (counted)
-	var guards [2]sync.RWMutex
-	guardOn := known(sigTryRmLoading) && hasKind(c.Ops, kTryRm) && hasKind(c.Ops, kGet)
-
 	w := c.Workers
 	if w <= 0 || w > len(c.Ops) {
 		w = len(c.Ops)
@@ -79,15 +74,6 @@ func stressOnce(c Case) (out vstat.Outcome, err error) {
 			<-begin
 			for i := k; i < len(c.Ops); i += w {
 				op := c.Ops[i]
-				h.mu.Lock()
-				skip := op.K == kAdd && h.closeStartT > 0 && known(sigAddAfterClose)
-				if skip {
-					h.excluded = sigAddAfterClose
-				}
-				h.mu.Unlock()
-				if skip {
-					continue
-				}
 				ctx := root
 				var cancel context.CancelFunc
 				if op.Cancel {
@@ -98,19 +84,7 @@ func stressOnce(c Case) (out vstat.Outcome, err error) {
 						cancel()
 					}
 				}
-				if guardOn && op.K == kGet {
-					guards[op.Id%2].RLock()
-				}
-				if guardOn && op.K == kTryRm {
-					guards[op.Id%2].Lock()
-				}
 				ctl.Do(i, func() { h.exec(i, op, ctx, ctl.Ops()[i].StartT) })
-				if guardOn && op.K == kGet {
-					guards[op.Id%2].RUnlock()
-				}
-				if guardOn && op.K == kTryRm {
-					guards[op.Id%2].Unlock()
-				}
 				if cancel != nil {
 					cancel()
 				}
@@ -139,9 +113,6 @@ func stressOnce(c Case) (out vstat.Outcome, err error) {
 	h.phase = 2
 	bad := len(h.viol) > 0
 	closedByCase := h.closeDoneT > 0
-	if guardOn {
-		h.excluded = sigTryRmLoading
-	}
 	h.mu.Unlock()
 	if !bad {
 		if !closedByCase {
@@ -165,10 +136,6 @@ func stressOnce(c Case) (out vstat.Outcome, err error) {
 		if h.closeDoneT > 0 {
 			for _, x := range h.insts {
 				if x.liveT > 0 && x.closedT == 0 {
-					if x.origin == "add" && x.liveT > h.closeStartT && h.closeStartT > 0 && known(sigAddAfterClose) {
-						h.excluded = sigAddAfterClose // Add overlapping Close: the known finding
-						continue
-					}
 					h.violationLocked("instance %s (live since t%d) is left open although the cache has shut down (Close returned at t%d)", x.name(), x.liveT, h.closeDoneT)
 				}
 			}
@@ -215,8 +182,15 @@ func genStress(rt *rapid.T) Case {
 	c.Pre = rapid.SampledFrom(genPreludes).Draw(rt, "prelude")
 	twoIds := rapid.IntRange(0, 2).Draw(rt, "twoIds") == 0
 	n := rapid.IntRange(3, 12).Draw(rt, "nOps")
+	// a third of the cases are lookup-heavy: several Gets racing through a miss while
+	// removers empty the slot again (the single-flight placeholder is the mechanism at stake)
+	getHeavy := rapid.IntRange(0, 2).Draw(rt, "getHeavy") == 0
 	for i := 0; i < n; i++ {
-		c.Ops = append(c.Ops, genOp(rt, twoIds))
+		o := genOp(rt, twoIds)
+		if getHeavy && i%2 == 0 {
+			o = Op{K: kGet, Id: o.Id}
+		}
+		c.Ops = append(c.Ops, o)
 	}
 	c.Workers = rapid.IntRange(0, 4).Draw(rt, "workers")
 	c.Loads = rapid.SliceOfN(rapid.SampledFrom([]int{ldValue, ldValue, ldValue, ldErr, ldNil, ldCtxAware, ldCtxAtEnd}), 1, 4).Draw(rt, "loads")
